@@ -11,6 +11,7 @@ import (
 	"testing"
 
 	pipeline "github.com/buildkite/go-pipeline"
+	"github.com/buildkite/go-pipeline/ordered"
 	"github.com/buildkite/go-pipeline/signature"
 	"github.com/lestrrat-go/jwx/v2/jwk"
 	"pgregory.net/rapid"
@@ -445,6 +446,29 @@ var catalogue = []mutation{
 		a.RemainingFields["soft_fail"] = mut
 		return true
 	}},
+	{"ordered-map-entry-removed-inside-signed-content", true, func(t *rapid.T, w *world, _ *auxData) bool {
+		// Delete leaves the slot behind (no compaction while more than half the slots are live); Replace
+		// onto another key vacates that key's slot: either way the entry is gone from the map
+		var om *ordered.MapSA
+		if len(w.step.Plugins) > 0 {
+			if cfg, ok := w.step.Plugins[0].Config.(map[string]any); ok {
+				om, _ = cfg["ordered"].(*ordered.MapSA)
+			}
+		}
+		if om == nil && w.step.Matrix != nil {
+			om, _ = w.step.Matrix.RemainingFields["ordered"].(*ordered.MapSA)
+		}
+		if om == nil || om.Len() < 4 {
+			return false
+		}
+		if rapid.Bool().Draw(t, "viareplace") {
+			v, _ := om.Get("ok0")
+			om.Replace("ok0", "ok1", v)
+		} else {
+			om.Delete(fmt.Sprintf("ok%d", rapid.IntRange(0, om.Len()-1).Draw(t, "omdel")))
+		}
+		return true
+	}},
 	{"matrix-extra-key-change", true, func(t *rapid.T, w *world, _ *auxData) bool {
 		// a key of the matrix itself next to setup / adjustments (also next to a plain value list)
 		m := w.step.Matrix
@@ -776,7 +800,7 @@ var catalogue = []mutation{
 	}},
 }
 
-var rec = ev.New("TestPropMutationsBreakVerification", "command steps built as structs (S command text, step env, plugins with nested configs from the documented source forms, matrices with adjustments and extras, unsigned label/key/cache/unknown fields), pipeline env, repository URL, key kind in {EdDSA, ES512, PS512, ES256 signer}; each case signs, checks the positive control (verification env = pipeline env + unrelated variables, public half only), applies ONE mutation from a catalogue of 46 semantic mutations (must fail) or 9 benign ones (must still verify); non-trivial = semantic mutation applied to a step with >= 1 plugin or matrix or step env; distinct by hash of (step, mutation, key kind)")
+var rec = ev.New("TestPropMutationsBreakVerification", "command steps built as structs (S command text, step env, plugins with nested configs from the documented source forms, matrices with adjustments and extras, unsigned label/key/cache/unknown fields), pipeline env, repository URL, key kind in {EdDSA, ES512, PS512, ES256 signer}; each case signs, checks the positive control (verification env = pipeline env + unrelated variables, public half only), applies ONE mutation from a catalogue of 47 semantic mutations (must fail) or 9 benign ones (must still verify); non-trivial = semantic mutation applied to a step with >= 1 plugin or matrix or step env; distinct by hash of (step, mutation, key kind)")
 
 func TestPropMutationsBreakVerification(t *testing.T) {
 	ctx := context.Background()
@@ -787,6 +811,30 @@ func TestPropMutationsBreakVerification(t *testing.T) {
 		step, canonMap := g.Step()
 		penv := g.EnvMap("penv", 4)
 		repo := g.RepoURL()
+		if rapid.IntRange(0, 3).Draw(t, "orderedinside") == 0 {
+			// signed content may hold order-preserving maps (every mapping below a matrix's or an
+			// adjustment's extra keys is one after a parse; a program may put one into a plugin config)
+			om := ordered.NewMap[string, any](0)
+			for i, c := 0, rapid.IntRange(4, 7).Draw(t, "omn"); i < c; i++ {
+				om.Set(fmt.Sprintf("ok%d", i), g.Str("omv"))
+			}
+			placed := false
+			if len(step.Plugins) > 0 {
+				if cfg, ok := step.Plugins[0].Config.(map[string]any); ok && cfg != nil && rapid.Bool().Draw(t, "omincfg") {
+					cfg["ordered"] = om
+					placed = true
+				}
+			}
+			if !placed {
+				if step.Matrix == nil {
+					step.Matrix = &pipeline.Matrix{Setup: pipeline.MatrixSetup{"": []string{"a", "b"}}}
+				}
+				if step.Matrix.RemainingFields == nil {
+					step.Matrix.RemainingFields = map[string]any{}
+				}
+				step.Matrix.RemainingFields["ordered"] = om
+			}
+		}
 		if rapid.IntRange(0, 3).Draw(t, "fieldnamevars") == 0 {
 			// pipeline variables that are NAMED like the signed step fields, often holding the very value of
 			// that field: the env:: namespace is what keeps the two apart
